@@ -1048,7 +1048,7 @@ class WalletTransaction(Transaction):
 
         session = self.hdwallet.session
         txid = bytes.fromhex(self.txid)
-        tx_query = session.query(DbTransaction).filter_by(txid=txid)
+        tx_query = session.query(DbTransaction).filter_by(txid=txid, wallet_id=self.hdwallet.wallet_id)
         tx = tx_query.scalar()
         session.query(DbTransactionOutput).filter_by(transaction_id=tx.id).delete()
         for inp in tx.inputs:
@@ -1063,7 +1063,7 @@ class WalletTransaction(Transaction):
                         DbTransaction.wallet_id == self.hdwallet.wallet_id).first():
                     u.spent = False
         session.query(DbTransactionInput).filter_by(transaction_id=tx.id).delete()
-        qr = session.query(DbKey).filter_by(latest_txid=txid)
+        qr = session.query(DbKey).filter_by(latest_txid=txid, wallet_id=self.hdwallet.wallet_id)
         qr.update({DbKey.latest_txid: None, DbKey.used: False})
         res = tx_query.delete()
         key = qr.scalar()
